@@ -142,10 +142,17 @@ def pipeline(ctx):
         if not g.lines:
             raise ToolError("SseGen/%s generated no scenario" % cfg)
         scns.extend(g.lines)
+    # longer scripts (<= 9 steps, <= 3 spurious wake-ups): random behaviours of the same spec (TLC -simulate, seeded)
+    g = ctx.tlc("SseGen", "Gen_Sse_sched_sim.cfg", workers=4, timeout=900, simulate="num=%d" % (300 if q else 4000), depth=150, name="Gen_Sse_sched_sim")
+    seen = set(json.dumps(s, sort_keys=True) for s in scns)
+    for s in g.lines:
+        k = json.dumps(s, sort_keys=True)
+        if k not in seen:
+            seen.add(k); scns.append(s)
     scns = pair(ctx, scns)
     n_tlc = len(scns)
     rp = ctx.path("random.ndjson")
-    ctx.vh_gen("sse", rp, 2500 if q else 30000)
+    ctx.vh_gen("sse", rp, 2500 if q else 60000)
     for l in open(rp):
         d = json.loads(l); d["random"] = 1
         scns.append(d)
